@@ -183,6 +183,21 @@ def run(ctx):
                 ("ed.distance_fast", lambda a, b: ed.distance_fast(a, b), True),
                 ("dtw.ub_euclidean", lambda a, b: dtw.ub_euclidean(a, b), False)):
             refs[label] = evaluate(label, fn, pairs, c)
+        # real-valued pair of equal length >= 8 whose optimal alignment is the diagonal (window 1): with use_pruning the
+        # threshold is the Euclidean bound, i.e. the distance itself — the way that bound is summed must not depend on
+        # the container (pairwise vs sequential summation differ in the last bit)
+        Lr = rng.randint(8, 16)
+        w1 = [rng.uniform(-3, 3) for _ in range(Lr)]
+        w2 = [rng.uniform(-3, 3) for _ in range(Lr)]
+        rr1, rr2 = reps_1d(w1, rng), reps_1d(w2, rng)
+        rpairs = {k: (rr1[k], rr2[k]) for k in rr1}
+        for label, fn, c in (
+                ("dtw.distance(use_pruning, window=1)", lambda a, b: dtw.distance(a, b, use_pruning=True, window=1), False),
+                ("dtw.warping_paths(use_pruning, window=1)",
+                 lambda a, b: dtw.warping_paths(a, b, use_pruning=True, window=1)[0], False),
+                ("dtw.distance_fast(use_pruning, window=1)",
+                 lambda a, b: dtw.distance_fast(a, b, use_pruning=True, window=1), True)):
+            evaluate(label, fn, rpairs, c)
         # interleaving: the same objects used by other routines in between
         a, b = r1["strided"], r2["array"]
         x1 = canon(dtw.distance(a, np.array(v2), **kw))
